@@ -6,7 +6,9 @@ import Nstd.Str.Model
   with `<v> = length bytes term owned`: bytes in hex (`??` = unspecified, `-` = empty), `term` =
   the stored char `data->str[length]` (for attached memory: the byte behind the attached range),
   `owned` = 1 iff `data` is a heap block.  `<result>` = `-` or the value(s) the call returned.
-  Operands written `x<hex>` are temporaries `String(ptr, len)`.
+  Operands written `x<hex>` are temporaries `String(ptr, len)`.  `split`/`join` share one token list and,
+  like `appendX`/`prependX` with an `x<hex>` operand, run through `xstep` (the extended operations of the
+  theorems `xrefines`); `appendA`/`prependA v off len` = `s.append/prepend((const char*)s + off, len)`.
   A fault prints `FAULT` and resets the state.
 -/
 open Nstd.Common
@@ -182,14 +184,31 @@ def exec (d : DState) (ws : List String) : R :=
   | ["split", v, h, sk] =>
     match var? v, fromHex h, sk.toNat? with
     | some v, some h, some sk =>
-      match split s v h (sk != 0) with
-      | some (s, toks) => .ok { st := s, toks := toks } (" ".intercalate (toString toks.length :: toks.map bytesStr))
+      match xstep { st := s, toks := d.toks } (.split v h (sk != 0)) with
+      | some x => .ok { st := x.st, toks := x.toks } (" ".intercalate (toString x.toks.length :: x.toks.map bytesStr))
       | none => .fault
     | _, _, _ => .bad
   | ["join", v, c] =>
     match var? v, byte? c with
-    | some v, some c => mutSt d (join s v d.toks c)
+    | some v, some c =>
+      match xstep { st := s, toks := d.toks } (.joinT v c) with
+      | some x => .ok { st := x.st, toks := x.toks } "-"
+      | none => .fault
     | _, _ => .bad
+  | ["appendA", v, o, l] =>
+    match var? v, o.toNat?, l.toNat? with
+    | some v, some o, some l =>
+      match desc s v with
+      | some dv => if o + l ≤ dv.len then mutSt d (appendAlias s v o l) else .bad
+      | none => .fault
+    | _, _, _ => .bad
+  | ["prependA", v, o, l] =>
+    match var? v, o.toNat?, l.toNat? with
+    | some v, some o, some l =>
+      match desc s v with
+      | some dv => if o + l ≤ dv.len then mutSt d (prependAlias s v o l T0) else .bad
+      | none => .fault
+    | _, _, _ => .bad
   | "printf" :: v :: items =>
     match var? v, parseFmt items with
     | some v, some f =>
@@ -234,11 +253,27 @@ def exec (d : DState) (ws : List String) : R :=
     | none => .bad
   | ["prependX", v, x] =>
     match var? v with
-    | some v => withOperand d x (fun s w => (prependS s v w T0).map (fun s => (s, "-")))
+    | some v =>
+      if x.startsWith "x" then
+        match fromHex (x.drop 1).toString with
+        | some bs =>
+          match xstep { st := s, toks := d.toks } (.prependL v bs) with
+          | some x => .ok { st := x.st, toks := x.toks } "-"
+          | none => .fault
+        | none => .bad
+      else mutOp d (do pure (.prependS v (← var? x)))
     | none => .bad
   | ["appendX", v, x] =>
     match var? v with
-    | some v => withOperand d x (fun s w => (appendS s v w).map (fun s => (s, "-")))
+    | some v =>
+      if x.startsWith "x" then
+        match fromHex (x.drop 1).toString with
+        | some bs =>
+          match xstep { st := s, toks := d.toks } (.appendL v bs) with
+          | some x => .ok { st := x.st, toks := x.toks } "-"
+          | none => .fault
+        | none => .bad
+      else mutOp d (do pure (.appendS v (← var? x)))
     | none => .bad
   -- queries with C string / char arguments
   | ["findC", v, c] =>
